@@ -6,6 +6,7 @@
   `E2P.dec15_recover` when present; a hypothesis `Recovers x` otherwise) and then round it as a decimal.
 -/
 import E2P.Model.Round
+import E2P.Lemmas.Dec15
 
 namespace E2P.C16
 open E2P
@@ -76,6 +77,23 @@ theorem round_spec_partial (mode : RMode) (x : Rat) (n : Int) (h : Recovers x) :
     roundFn mode (.flt (rn x)) (.int n) = .ok (.flt (specRound mode x n)) := by
   unfold Recovers at h
   simp [roundFn, digitsArg, specRound, h]
+
+/-- every decimal with at most 15 significant digits is recovered from its double -/
+theorem recovers_dec15 (neg : Bool) (digits : Nat) (exp : Int) (h : digits < 10 ^ 15) :
+    Recovers (decimal neg digits exp) := dec15_recover neg digits exp h
+
+/-- **Full statement.** For every decimal number ±digits·10^exp with up to 15 significant digits and every digit
+    count `n` (negative, zero, positive), ROUND / ROUNDUP / ROUNDDOWN applied to the double of that number return
+    the double nearest to the exact decimal result. -/
+theorem round_spec (mode : RMode) (neg : Bool) (digits : Nat) (exp : Int) (n : Int) (h : digits < 10 ^ 15) :
+    roundFn mode (.flt (rn (decimal neg digits exp))) (.int n) =
+      .ok (.flt (specRound mode (decimal neg digits exp) n)) :=
+  round_spec_partial mode _ n (recovers_dec15 neg digits exp h)
+
+/-- **x% = x/100**, as the nearest double, for every decimal x of up to 13 significant digits given as a double -/
+theorem percent_spec (neg : Bool) (digits : Nat) (exp : Int) (h : digits < 10 ^ 13) :
+    percentFn (.flt (rn (decimal neg digits exp))) = .ok (.flt (specPercent (decimal neg digits exp))) := by
+  simp [percentFn, normalize15, fdiv, specPercent, percent_recover neg digits exp h]
 
 /-- integers are rounded exactly and stay integers -/
 theorem round_int (mode : RMode) (z n : Int) :
